@@ -660,7 +660,9 @@ fn gen_b(rng: &mut Rng) -> Case {
     let mut fn_names = vec![];
     for k in 0..nf {
         let name = format!("fun{}", k);
-        lines.push(format!("fn {}", name));
+        // (one function in three is `<scope>`d: the error mode and the error record are not
+        // variables — what a scoped body switches stays switched after it returns)
+        lines.push(if rng.chance(1, 3) { format!("fn <scope> {}", name) } else { format!("fn {}", name) });
         let callable = fn_names.clone();
         gen_block(rng, &mut lines, "    ", 1, &callable);
         if rng.chance(1, 3) {
@@ -734,6 +736,9 @@ fn fixed() -> Vec<Case> {
     add("errb", format!("fn f\n    {}\nend\nf\nif true\n    {}\nend\nr = range 0 2\nfor i in ${{r}}\n    {}\nend", grp("c0", s).replace('\n', "\n    "), grp("x = c1", so).replace('\n', "\n    "), grp("c2", s).replace('\n', "\n    ")), vec![e("in fn"), e("in if"), e("loop 1"), e("loop 2")], vec![], None, None);
     add("errb", format!("{}\n{}\n{}", grp("array_push nothandle 1", "probe A ${e} ${l} ${s}"), grp("x = substring abc 9", "probe A ${e} ${l} ${s}"), grp("x = array_is_empty nothandle", "probe A ${e} ${l} ${s}")), vec![], vec![], Some(MAIN), None);
     add("errb", format!("fn f\n    probe F true\n    exit_on_error true\nend\n{}\nf\n{}", grp("c0", s), grp("c1", s)), vec![e("survivable"), e("fatal")], vec![], Some(MAIN), None);
+    // the same switch made inside a `<scope>` function; and switched OFF inside one after it was on
+    add("errb", format!("fn <scope> f\n    probe F true\n    exit_on_error true\nend\n{}\nf\n{}", grp("c0", s), grp("c1", s)), vec![e("survivable"), e("fatal")], vec![], Some(MAIN), None);
+    add("errb", format!("fn <scope> f\n    probe F false\n    exit_on_error false\n    return done\nend\nprobe F true\nexit_on_error true\nf\n{}\n{}", grp("c0", s), grp("c1", s)), vec![e("survivable 1"), e("survivable 2")], vec![], None, None);
     v
 }
 
